@@ -6,6 +6,8 @@ import (
 	"go/types"
 )
 
+var exploreHooks = map[string]func(c *Ctx){}
+
 // explore: developer query used to enumerate candidate sites before freezing a rule.
 func explore(c *Ctx, what string) {
 	for _, rel := range libPkgs {
@@ -64,24 +66,30 @@ func explore(c *Ctx, what string) {
 }
 
 func exploreRule(c *Ctx, what string) {
+	if h, ok := exploreHooks[what]; ok {
+		h(c)
+		return
+	}
 	r := NewReport("X", "quick")
 	all := func(string) bool { return true }
 	switch what {
 	case "appendalias":
-		ruleAppendAlias(c, r, all, 0)
+		ruleAppendAlias(c, r, c.funcsInScope(all, libPkgs), 0)
 	case "signconvrule":
-		ruleSignConv(c, r, all, 0)
+		ruleSignConv(c, r, c.funcsInScope(all, libPkgs), 0)
 	case "optsforward":
-		ruleOptsForward(c, r, all, 0)
+		ruleOptsForward(c, r, c.funcsInScope(all, libPkgs), 0)
 	case "copyalias":
 		ruleCopyAlias(c, r)
 	case "node":
 		ruleWriteGated(c, r)
 		ruleWildcardOpt(c, r)
 		ruleDeletePrune(c, r)
-		ruleReflectString(c, r, all)
+		ruleReflectString(c, r, c.funcsInScope(all, libPkgs))
+	case "paramstore":
+		ruleParamStore(c, r, c.funcsInScope(all, libPkgs), 0)
 	case "byterunerule":
-		ruleByteRune(c, r, all)
+		ruleByteRune(c, r, c.funcsInScope(all, libPkgs))
 	}
 	for _, ob := range r.obs {
 		if ob.Status != Discharged {
@@ -89,4 +97,25 @@ func exploreRule(c *Ctx, what string) {
 		}
 	}
 	fmt.Println("total", len(r.obs))
+}
+
+func init() {
+	exploreHooks["roreflect"] = func(c *Ctx) {
+		r := NewReport("X", "quick")
+		r.Rule("x", "x", 0)
+		fs := c.entryReachCut(r, func(f *FuncInfo) bool { return f.Name == "ytypes.retrieveNode" }, "ytypes:Validate", "ygot:ValidateGoStruct", "ygot:EmitJSON", "ygot:ConstructIETFJSON", "ygot:ConstructInternalJSON", "ygot:Marshal7951", "ygot:TogNMINotifications", "ygot:EncodeTypedValue", "ygot:Diff", "ygot:DiffWithAtomic")
+		fmt.Println("reachable funcs", len(fs))
+		for _, f := range fs {
+			ast.Inspect(f.Decl.Body, func(n ast.Node) bool {
+				if call, ok := n.(*ast.CallExpr); ok {
+					fn := FullName(Callee(f.Info(), call))
+					switch fn {
+					case "reflect.Value.Set", "reflect.Value.SetMapIndex", "reflect.Value.SetInt", "reflect.Value.SetString", "reflect.Value.SetBool", "reflect.Value.SetUint", "reflect.Value.SetFloat", "reflect.Value.SetLen", "reflect.Value.SetBytes", "reflect.Value.Call", "reflect.Copy", "sort.Slice", "sort.Strings", "sort.Sort":
+						fmt.Printf("%s %s: %s\n", c.Pos(call.Pos()), f.Name, types.ExprString(call))
+					}
+				}
+				return true
+			})
+		}
+	}
 }
